@@ -723,6 +723,26 @@ fn misc_case(ctx: &mut Ctx, case: u64, rng: &mut Rng) {
             }
         }
     }
+    // textual form of filters: every filter survives Display -> FromStr, whatever bytes it holds
+    // (delimiters, empty, non-UTF-8)
+    for _ in 0..30 {
+        let n = rng.below(7);
+        let mut bytes: Vec<u8> = (0..n).map(|_| *rng.pick(&[b':', b':', b'a', b'/', b' ', 0x00, 0xFF, 0xC3, b'%', b'0'])).collect();
+        if rng.chance(1, 4) {
+            bytes = format!("user:{}:", rng.below(50)).into_bytes();
+        }
+        let f = if rng.chance(1, 2) { FilterKind::Prefix(bytes.clone().into()) } else { FilterKind::Exact(bytes.clone().into()) };
+        let text = f.to_string();
+        ctx.count("filter_text_round_trips", 1);
+        match guard(ctx, case, "filter-parser", text.as_bytes(), || FilterKind::from_str(&text)) {
+            None => return,
+            Some(Ok(g)) if g == f => {}
+            Some(other) => {
+                ctx.violation(case, "filter-text-round-trip-differs", json!({"filter": format!("{f:?}"), "text": text, "parsed": format!("{other:?}")}));
+                return;
+            }
+        }
+    }
     // policy round trip
     let p = crate::props::c15::real(&crate::props::c15::gen_policy(rng));
     let enc = postcard::to_stdvec(&p).unwrap();
